@@ -367,12 +367,33 @@ CHECKS["C14"] = dict(
          "(ii) the curve sampled at 240 arc-length steps has chord <= step, heading change <= step/rho, no reversal for Dubins, ends at the target "
          "pose, and its polyline length matches the reported distance; (iii) distance >= straight-line distance; (iv) symmetric Dubins and Reeds-Shepp "
          "are symmetric, symmetric Dubins = min of both directions, Reeds-Shepp <= Dubins either way; (v) prefix law d(A, X_t) = t d(A,B). Slack "
-         "1e-5 (rho + d); pairs closer than 1e-5 max(1,rho) and mismatches that a 2e-6 nudge of the pose explains are unjudged (counted). "
+         "1e-5 (rho + d); pairs closer than 1e-5 max(1,rho) with headings within 1e-5 and mismatches that a 2e-6 nudge of the pose explains are unjudged (counted). "
          "Non-trivial = pair in a boundary class or CCC-optimal. Distinct = consumed byte prefix.",
     technique="property-based differential testing against an independent six-word Dubins solver + curve integration + metamorphic relations",
     level_text="Generated pose pairs concentrated on classification boundaries are judged by an independent solver, by integrating the "
                "interpolated curve and by relations between the three spaces. Exploration-level.",
     level_note="Trusted: the harness's six-word solver (each candidate is validated by forward integration to the goal pose before it may "
                "count). Numerical grain of the library (DUBINS_EPS / RS_EPS = 1e-6) is honoured as stated in the rule.",
-    assumptions=["poses closer than 1e-5 max(1, rho) are below the solvers' resolution and not judged"],
+    assumptions=["poses closer than 1e-5 max(1, rho) with headings within 1e-5 are below the solvers' resolution and not judged"],
+)
+
+CHECKS["C15"] = dict(
+    src="harness/C15_informed.cpp",
+    cases=dict(quick=60000, thorough=1200000),
+    fuzz=dict(runs=600000, maxlen=300),
+    rule="Case = (40%) prolate-hyperspheroid level: dimension 2..8 x foci layout {axis aligned, diagonal, arbitrary; separated > 1e-6} x cost from "
+         "1.0001 d_foci to 100 d_foci: 16 surface samples must have focal-distance sum = c within 1e-9, getPhsMeasure = analytic Gamma-function "
+         "volume, interior samples inside; in 16% of these cases 20000 interior samples are mapped back with the harness's own inverse affine map and "
+         "radius^n must be uniform (KS D < 0.03) with the axis coordinate balanced (< 7.5 sigma); (60%) sampler level: {PathLengthDirect, Rejection} x "
+         "{R^2..R^8, SE2, SE3} x 1-2 starts x 1-3 goals (optionally near a bound) x cost {just above d, 1.01..2 d, 2..11 d, far beyond the bounds} x "
+         "optional lower bound: every successful sample is in bounds, has heuristicSolnCost < c (and >= the lower bound), the heuristic equals the "
+         "recomputed focal-distance sum, and getInformedMeasure equals the analytic sum of volumes (x rotation measure) capped by the space measure. "
+         "Non-trivial = thin spheroid (c < 2 d), region near a bound, >= 2 spheroids, or a uniformity test. Distinct = consumed byte prefix.",
+    technique="property-based testing with analytic oracles (focal sum, Gamma-function volume) and a seeded Kolmogorov-Smirnov uniformity test",
+    level_text="Membership, bounds, surface law and measure are checked exactly on generated configurations; the 'uniformly distributed / "
+               "nothing excluded' clause is a statistical verdict (KS on 20000 samples, false-alarm probability < 1e-12), stated as such. "
+               "Exploration-level.",
+    level_note="Trusted: the harness's inverse affine map and volume formula. KS threshold 0.03 separates the unchanged tree (max D 0.0114 "
+               "in the design-phase calibration) from the weakest calibrated mutant (0.048).",
+    assumptions=["foci separated by more than 1e-6 (the statement requires > 1e-9)"],
 )
